@@ -205,10 +205,38 @@ impl Runner {
                 if lexpr::to_writer_custom(&mut w, v, o).is_err() || w != b {
                     self.bad.push(mk("to_writer_custom differs from to_vec_custom".into()));
                 }
+                // a sink that takes a few bytes per call (never an error): it must still receive exactly the String,
+                // in particular no multi-byte character cut in half
+                for k in [1usize, 3] {
+                    let mut sink = Sips(Vec::new(), k);
+                    if lexpr::to_writer_custom(&mut sink, v, print_opts(po)).is_err() || sink.0 != b {
+                        self.bad.push(mk(format!("a sink that accepts {} byte(s) per write receives other bytes than the printed String", k)));
+                    }
+                    let mut sink = Sips(Vec::new(), k);
+                    let mut pr = lexpr::Printer::with_options(&mut sink, print_opts(po));
+                    let ok = pr.print(v).is_ok();
+                    drop(pr);
+                    if !ok || sink.0 != b {
+                        self.bad.push(mk(format!("Printer::print into a sink that accepts {} byte(s) per write delivers other bytes than the printed String", k)));
+                    }
+                }
             }
             Ok(_) => self.bad.push(mk("printing failed".into())),
             Err(_) => self.bad.push(mk("printing panicked".into())),
         }
+    }
+}
+
+struct Sips(Vec<u8>, usize);
+
+impl std::io::Write for Sips {
+    fn write(&mut self, buf: &[u8]) -> std::io::Result<usize> {
+        let n = buf.len().min(self.1);
+        self.0.extend_from_slice(&buf[..n]);
+        Ok(n)
+    }
+    fn flush(&mut self) -> std::io::Result<()> {
+        Ok(())
     }
 }
 
